@@ -112,6 +112,9 @@ func (m *verifWriteBack) dir() string { return filepath.Join(m.w.root, "tasks") 
 
 func (m *verifWriteBack) Add(t persistedretry.Task) error {
 	wt := t.(*writeback.Task)
+	if m.w.outages && verif.Bool("task_store_down") {
+		return errors.New("task store: database is locked")
+	}
 	err := os.Mkdir(filepath.Join(m.dir(), wt.Namespace+"@"+wt.Name), 0o755)
 	if err != nil && !os.IsExist(err) {
 		return err
@@ -143,7 +146,7 @@ func (m *verifWriteBack) Find(query interface{}) ([]persistedretry.Task, error) 
 }
 
 func (m *verifWriteBack) SyncExec(t persistedretry.Task) error { return m.exec.Exec(t) }
-func (m *verifWriteBack) Close()                                {}
+func (m *verifWriteBack) Close()                               {}
 
 // workerStep: the manager's worker executes one stored task; a task leaves the
 // store only after a successful execution (C30).
@@ -266,7 +269,7 @@ func (w *verifWorld) check(s *Server, wb *verifWriteBack) {
 	}
 }
 
-func verifHistory(outages bool, twoNamespaces bool) {
+func verifHistory(outages bool, twoNamespaces bool, ops []int, steps int) {
 	w := &verifWorld{root: filepath.Join(verif.TempDir(), "c31"), outages: outages, owns: true}
 	s, wb := w.boot()
 	name := verifBlobDigest().Hex()
@@ -274,10 +277,14 @@ func verifHistory(outages bool, twoNamespaces bool) {
 	nns := 1
 	if twoNamespaces {
 		nns = 2
+		// the history starts with a complete, acknowledged upload under ns-two
+		_, ok := w.upload(s, verifNamespaces[1], false)
+		verif.Assert("first-upload-acknowledged", ok)
+		w.acked[1] = true
+		w.check(s, wb)
 	}
-	steps := verif.Bound("steps", 4, 6)
 	for k := 0; k < steps; k++ {
-		switch verif.Choice("op", 7) {
+		switch ops[verif.Choice("op", len(ops))] {
 		case 0: // complete upload (start, patch, commit) for a namespace
 			i := verif.Choice("namespace", nns)
 			if _, ok := w.upload(s, verifNamespaces[i], false); ok {
@@ -323,8 +330,47 @@ func verifHistory(outages bool, twoNamespaces bool) {
 // VerifWriteBackHistoryOneNamespace: uploads, late (conflicting) commits,
 // write-back executions with backend outages, forced cleanups, store-level
 // deletions and restarts for one namespace.
-func VerifWriteBackHistoryOneNamespace() { verifHistory(true, false) }
+func VerifWriteBackHistoryOneNamespace() {
+	verifHistory(true, false, []int{0, 1, 2, 3, 4, 5, 6}, verif.Bound("steps", 3, 5))
+}
 
 // VerifFindingWriteBackTwoNamespaces: the same blob uploaded under two
 // namespaces with different backends (see FINDINGS.md if this fires).
-func VerifFindingWriteBackTwoNamespaces() { verifHistory(false, true) }
+func VerifFindingWriteBackTwoNamespaces() {
+	verifHistory(false, true, []int{0, 1, 3, 5}, verif.Bound("steps_after_first_upload", 3, 4))
+}
+
+// VerifWriteBackCrash: an upload has been acknowledged; the origin then
+// crashes at any file-system step of a further upload of the same blob
+// (conflict handling), of a write-back execution or of a forced cleanup. After
+// the restart the acknowledged blob is still in the backend or safely pending.
+func VerifWriteBackCrash() {
+	w := &verifWorld{root: filepath.Join(verif.TempDir(), "c31"), outages: false, owns: true}
+	s, wb := w.boot()
+	name := verifBlobDigest().Hex()
+	_, ok := w.upload(s, verifNamespaces[0], false)
+	verif.Assert("first-upload-acknowledged", ok)
+	w.acked[0] = true
+	if verif.Bool("written_back_before") {
+		wb.workerStep()
+	}
+	w.check(s, wb)
+	op := verif.Choice("op_during_crash", 3)
+	crashed := verif.CrashScope(func() {
+		switch op {
+		case 0:
+			w.upload(s, verifNamespaces[0], false)
+		case 1:
+			wb.workerStep()
+		case 2:
+			s.maybeDelete(name, 0)
+		}
+	})
+	verif.Cover("crashed", crashed)
+	verif.Cover("not-crashed", !crashed)
+	s, wb = w.boot()
+	w.check(s, wb)
+	// and the pending write-back still completes afterwards
+	wb.workerStep()
+	w.check(s, wb)
+}
